@@ -334,3 +334,56 @@ def lit_conv(prog):
         if nbranches == 0:
             raise AnalysisBroken('LIT-CONV: no digit branch recognised in %s' % name)
     return RuleResult('LIT-CONV', obs, 8, {})
+
+
+def cap_protocol(prog):
+    """CAP-PROTOCOL: exact exploration of EvalExpression::run over (count, var_stack.ptr, oper_stack.ptr) with the stack
+    methods and execute_stack inlined: in every reachable state no assert() of the stack classes can fail and every
+    subscript of their arrays is inside the array."""
+    from nk.smallstate import Explorer, Frame
+    fn = prog.fn('EvalExpression::run')
+    refs, ints = {}, {}
+    for n in fn.nodes.values():
+        if n['k'] == 'DeclStmt':
+            for d in n.get('decls', ()):
+                t = fn.types[d['t']]
+                if t in ('EvalExpression::VarStack', 'EvalExpression::OperStack'):
+                    refs[d['d']] = d['n']
+                elif t == 'int' and d['n'] == 'count':
+                    ints[d['d']] = ('loc', fn.key, d['d'])
+    if len(refs) != 2 or not ints:
+        raise AnalysisBroken('CAP-PROTOCOL: EvalExpression::run no longer has the two stack objects and the count variable '
+                             '(evaluator rewritten? re-derive the rule)')
+    ex = Explorer(prog)
+    ex.explore(fn, Frame(fn, None, refs, ints), frozenset())
+    r = ex.res
+    obs = []
+
+    def fmt(st):
+        return ', '.join('%s=%s' % ('.'.join(map(str, k)) if isinstance(k, tuple) and k[0] not in ('loc', 'arg') else 'count', v)
+                         for k, v in sorted(st, key=str) if not (isinstance(k, tuple) and k[0] == 'arg'))
+    seen = set()
+    for f2, n, st in r.asserts:
+        key = (f2.q, n['l'])
+        if key in seen:
+            continue
+        seen.add(key)
+        obs.append(Ob('CAP-PROTOCOL', f2.file, n['l'], f2.q, 'assert@%s' % f2.name, VIOLATED,
+                      'assert() in %s can fail in the reachable evaluator state {%s}: the assembler aborts (SIGABRT) on a '
+                      'source expression' % (f2.q, fmt(st))))
+    for f2, n, idx, bound, st in r.oob:
+        key = (f2.q, n['l'], 'oob')
+        if key in seen:
+            continue
+        seen.add(key)
+        obs.append(Ob('CAP-PROTOCOL', f2.file, n['l'], f2.q, 'subscript@%s' % f2.name, VIOLATED,
+                      '`%s` is evaluated with index %d (array of %d) in the reachable evaluator state {%s}' % (show(n)[:40], idx, bound, fmt(st))))
+    unk = {(f2.q, n['l']) for f2, n, st in r.unknown_idx}
+    if r.checked_idx < 5:
+        raise AnalysisBroken('CAP-PROTOCOL: only %d stack subscripts were reached by the exploration' % r.checked_idx)
+    obs.append(Ob('CAP-PROTOCOL', fn.file, fn.line, fn.q, 'exploration', DISCHARGED if not r.imprecise else VIOLATED,
+                  '; '.join(r.imprecise),
+                  '%d abstract states explored; %d stack subscripts and all asserts checked in every state; %d subscript sites with '
+                  'unknown index' % (r.states, r.checked_idx, len(unk))))
+    return RuleResult('CAP-PROTOCOL', obs, 1, {'states': r.states, 'subscripts_checked': r.checked_idx,
+                                              'unknown_index_sites': sorted(unk)})
